@@ -343,6 +343,20 @@ def oracle_c05(rows):
                     fails.append(_fail(r, idx, "a cancel that names no transaction (neither log id nor slate id) succeeded and cancelled %s" % ch))
                 prev = snap
                 continue
+            # a cancel that succeeds was given identifiers that all name one and the same entry of the active
+            # account (the log ids and slate ids the wallet held before the call); anything else is unknown
+            if prev is not None and k == "cancel" and s["rc"] == [0]:
+                oid, osl = s["op"].get("id"), s["op"].get("slate")
+                named = [t for t in prev["txs"] if t["parent"] == prev["active"]
+                         and (oid is None or t["id"] == oid) and (osl is None or t["slate"] == osl)]
+                if len(named) != 1:
+                    ch = [(t["parent"], t["id"]) for t in snap["txs"]
+                          if {(x["parent"], x["id"]): x["type"] for x in prev["txs"]}.get((t["parent"], t["id"])) != t["type"]]
+                    fails.append(_fail(r, idx, "cancel(id=%s, slate=%s) names %d entries of the active account (a log id and a slate "
+                                               "id that do not belong to one entry name nothing) yet it succeeded and cancelled %s"
+                                       % (oid, osl, len(named), ch)))
+                    prev = snap
+                    continue
             if prev is not None and k == "cancel" and s["op"].get("via_owner"):
                 # owner::cancel_tx updates the wallet state first (refresh, kernels, scan, expiry), so
                 # the snapshot diff is not the cancel's alone: the frame is the model's business here
